@@ -463,8 +463,19 @@ void check_lookup(const ctx::Context &c, const Map &m, const std::string &key, n
     CK(has, who << ": HasKey(" << show_key(key) << ") is false but the key is bound to " << show_val(exp));
   else if (m.find(key) == m.end())
     CK(!has, who << ": HasKey(" << show_key(key) << ") is true for a key that was never bound");
-  // a key whose most recent binding is the empty alternative: GetValue is pinned above, HasKey is
-  // not specified ("found" vs "has a value")
+  // a key whose most recent binding is the empty alternative: GetValue is pinned above; whether
+  // HasKey means "found" or "has a value" is not specified, but shadowing is: the answer must not
+  // depend on OLDER bindings of the key.  It is therefore compared with what a fresh context that
+  // binds only this key to the empty alternative answers (observed, not assumed).
+  else
+  {
+    static const bool has_for_empty_binding =
+        ctx::Context().SetValue("vh.empty.probe", ctx::ContextValue{}).HasKey("vh.empty.probe");
+    CK(has == has_for_empty_binding,
+       who << ": HasKey(" << show_key(key) << ") is " << has << " for a key whose most recent binding is the empty "
+           << "alternative, but " << has_for_empty_binding << " when no older binding exists: an older binding "
+           << "shows through (shadowing broken)");
+  }
 }
 
 void sweep(const std::vector<Member> &fam, const std::string &after)
